@@ -40,7 +40,18 @@ def norm_rel(e, truth=True):
         op, sw = _NEG[op]
         if sw:
             a, b = b, a
+    if op in ('eq', 'ne'):
+        # symmetric relations: constant-like operand to the right, otherwise order by canonical text
+        ca, cb = _constlike(a), _constlike(b)
+        if ca and not cb:
+            a, b = b, a
+        elif ca == cb and mir.canon(a) > mir.canon(b):
+            a, b = b, a
     return (op, a, b)
+
+
+def _constlike(e):
+    return not mir.contains(e, lambda x: x[0] in ('param', 'local', 'call', 'field', 'deref', 'idx', 'phi', 'cyc', 'try', 'variant', 'unknown'))
 
 
 def rel_str(r):
@@ -364,7 +375,15 @@ def crel(r):
     if r[0] in ('eq', 'ne') and isinstance(r[2], tuple) and r[2] and not isinstance(r[2][0], str):
         return '%s %s {%s}' % (mir.canon(r[1]), 'in' if r[0] == 'eq' else 'notin', ','.join(str(x) for x in r[2]))
     sym = {'lt': '<', 'le': '<=', 'eq': '==', 'ne': '!='}[r[0]]
-    return '%s %s %s' % (mir.canon(r[1]), sym, mir.canon(r[2]))
+    s = '%s %s %s' % (mir.canon(r[1]), sym, mir.canon(r[2]))
+    # equivalent spellings of emptiness tests
+    m = re.match(r'^len\((.*)\) == 0$', s) or re.match(r'^len\((.*)\) <= 0$', s)
+    if m:
+        return 'is_empty(%s)' % m.group(1)
+    m = re.match(r'^len\((.*)\) != 0$', s) or re.match(r'^0 < len\((.*)\)$', s)
+    if m:
+        return '!is_empty(%s)' % m.group(1)
+    return s
 
 
 def guards_at(body, bb):
